@@ -51,6 +51,9 @@ def gen_plan(rng, idx):
     lang = rng.choice(['en-GB', 'de-DE', 'ru-RU'])
     W = docgen.Words(rng)
     nosp = rng.random() < 0.15
+    # the encoding option of the library call also governs the files read by
+    # \LTinput: files in that encoding are readable
+    ienc = 'latin-1' if entry == 'lib' and rng.random() < 0.15 else None
     kinds = [k for k in docgen.BASIC_KINDS
              if k not in ('usepackage',)]
     if nosp:
@@ -78,6 +81,8 @@ def gen_plan(rng, idx):
         while name in ltfiles:
             name += 'x'
         kind = 'ENOENT' if never else rng.choice(FAULT_KINDS)
+        if ienc and kind == 'undecodable':
+            kind = 'EIO'            # every byte sequence is valid latin-1
         fault = {'kind': kind}
         if kind == 'EIO_read':
             fault['after'] = rng.randrange(0, 40)
@@ -154,6 +159,7 @@ def gen_plan(rng, idx):
                 last['s'] = last['s'][:-1]
     plan = {'entry': entry, 'ml': ml, 'lang': lang, 'frags': frags, 'nosp': nosp,
             'stdin': entry == 'cli' and rng.random() < 0.4,
+            'ienc': ienc,
             'ltfiles': ltfiles, 'nested': nested, '_index': idx,
             'pack': rng.choice(['*', '*', '', 'amsmath,babel'])}
     return plan
@@ -164,12 +170,18 @@ def concrete(plan, faulty):
     files = {}
     for n, spec in plan['ltfiles'].items():
         files[n] = {'text': spec['text']}
+        if plan.get('ienc'):
+            files[n]['enc'] = plan['ienc']
+            if spec['text']:
+                files[n]['text'] = '% Gr\xfc\xdfe aus der Datei\n' + spec['text']
         if (faulty or spec.get('never_readable')) and spec.get('fault'):
             files[n]['fault'] = spec['fault']
     tex = docgen.doc_text(plan['frags'])
     entry = plan['entry']
     if entry == 'lib':
         o = {'lang': plan['lang'], 'pack': plan['pack'], 'char': True}
+        if plan.get('ienc'):
+            o['ienc'] = plan['ienc']
         if plan.get('nosp'):
             o['nosp'] = True
         return {'kind': 'lib', 'files': files, 'ops': [{
@@ -375,6 +387,8 @@ def evaluate(plan):
     if len(diags_bad) > nmarks:
         probes['more_diagnostics_than_marks'] = 1
     probes['entry_' + plan['entry']] = 1
+    if plan.get('ienc'):
+        probes['ltinput_files_in_the_encoding_of_the_ienc_option'] = 1
     if any(fr.get('chain') for fr in plan['frags']):
         probes['readable_two_level_include_before_the_fault'] = 1
     if plan.get('stdin'):
